@@ -1,8 +1,83 @@
-import AlgoVerif.Common
-/-! Line-protocol component for C17 — not built yet. -/
+import AlgoVerif.Model.C17
+import AlgoVerif.Spec.C17
+/-! Line-protocol component for C17: `comp=quickfind|quickunion|weighted n=<n>`;
+ops `union p q`, `find p`, `connected p q`, `count`, `dump`. -/
 namespace AlgoVerif.C17.Driver
+open AlgoVerif AlgoVerif.C17
 
-def runCase (_hdr : List String) (ops : List String) : List String :=
-  ops.map fun _ => "bad-case"
+inductive St where
+  | qf (u : QuickFind)
+  | qu (u : QuickUnion)
+  | wq (u : Weighted)
+
+def St.union : St → Int → Int → Outcome St
+  | .qf u, p, q => (u.union p q).map .qf
+  | .qu u, p, q => (u.union p q).map .qu
+  | .wq u, p, q => (u.union p q).map .wq
+
+def St.find : St → Int → Outcome (Int × Bool)
+  | .qf u, p => u.find p
+  | .qu u, p => u.find p
+  | .wq u, p => u.find p
+
+def St.isConnected : St → Int → Int → Outcome Bool
+  | .qf u, p, q => u.isConnected p q
+  | .qu u, p, q => u.isConnected p q
+  | .wq u, p, q => u.isConnected p q
+
+def St.count : St → Int
+  | .qf u => u.getCount
+  | .qu u => u.getCount
+  | .wq u => u.getCount
+
+def St.dump : St → String
+  | .qf u => s!"count={u.count} id={showIntList u.id.toList}"
+  | .qu u => s!"count={u.count} root={showIntList u.root.toList}"
+  | .wq u => s!"count={u.count} root={showIntList u.root.toList} size={showIntList u.size.toList}"
+
+/-- run the ops of one case; after a `panic`/`diverge` the remaining ops print `skip`. -/
+def runOps (s0 : St) (ops : List String) : List String := Id.run do
+  let mut s := s0
+  let mut dead := false
+  let mut out : Array String := #[]
+  for line in ops do
+    if dead then out := out.push "skip"; continue
+    match words line with
+    | ["union", p, q] =>
+      match parseInt? p, parseInt? q with
+      | some p, some q =>
+        match s.union p q with
+        | .ok s' => s := s'; out := out.push "ok"
+        | .panic => dead := true; out := out.push "panic"
+        | .diverge => dead := true; out := out.push "hang"
+      | _, _ => out := out.push "bad-op"
+    | ["find", p] =>
+      match parseInt? p with
+      | some p =>
+        match s.find p with
+        | .ok (r, b) => out := out.push s!"ok {r} {showBool b}"
+        | .panic => dead := true; out := out.push "panic"
+        | .diverge => dead := true; out := out.push "hang"
+      | none => out := out.push "bad-op"
+    | ["connected", p, q] =>
+      match parseInt? p, parseInt? q with
+      | some p, some q =>
+        match s.isConnected p q with
+        | .ok b => out := out.push s!"ok {showBool b}"
+        | .panic => dead := true; out := out.push "panic"
+        | .diverge => dead := true; out := out.push "hang"
+      | _, _ => out := out.push "bad-op"
+    | ["count"] => out := out.push s!"ok {s.count}"
+    | ["dump"] => out := out.push s!"ok {s.dump}"
+    | _ => out := out.push "bad-op"
+  return out.toList
+
+def runCase (hdr : List String) (ops : List String) : List String :=
+  let n := headerNat hdr "n" 0
+  match headerGet hdr "comp" with
+  | some "quickfind" => runOps (.qf (QuickFind.new n)) ops
+  | some "quickunion" => runOps (.qu (QuickUnion.new n)) ops
+  | some "weighted" => runOps (.wq (Weighted.new n)) ops
+  | _ => ops.map fun _ => "bad-case"
 
 end AlgoVerif.C17.Driver
